@@ -1339,8 +1339,11 @@ class ReactorRecorder:
                 o = rng.choice(cands)
                 f = w["cls"][o]
                 how = rng.choice(["set", "call", "call", "api"]) if f == "cmp" else rng.choice(["set", "call"])
+                detached = f == "cmp" and O[o].parent is None  # the component mutators need a parent (volume, links)
+                if how == "api" and detached:
+                    how = "set"
                 if how == "call":
-                    m = rng.choice(RO_CALLS[f])
+                    m = rng.choice([c for c in RO_CALLS[f] if not detached or c in ("p.update", "p[]=", "del p[]", "copyParamsFrom")])
                     a = {"n": "CallRO", "o": o, "m": m}
                     call_mutator(O[o], f, m)
                 elif how == "set":
